@@ -85,23 +85,46 @@ def concat_norm(parts, empty_like=None):
     return ('mixed', sorted(kinds))
 
 
+def as_indices(idxs):
+    """Index lists as given by callers (ranges, arrays, lists) without a per-element Python loop for long ones."""
+    if isinstance(idxs, range):
+        return np.arange(idxs.start, idxs.stop, idxs.step, dtype=np.int64) if len(idxs) >= 64 else list(idxs)
+    if isinstance(idxs, np.ndarray):
+        return idxs.astype(np.int64, copy=False) if len(idxs) >= 64 else [int(i) for i in idxs]
+    return [int(i) for i in idxs]
+
+
+def gather(buf, idxs, width):
+    """b''.join(buf[i*width:(i+1)*width] for i in idxs) for bytes (or the same for an ASCII str), fast for long index lists."""
+    is_str = isinstance(buf, str)
+    if len(idxs) < 64 or width == 0:
+        if is_str:
+            return ''.join(buf[i * width:(i + 1) * width] for i in idxs)
+        return b''.join(bytes(buf[i * width:(i + 1) * width]) for i in idxs)
+    raw = buf.encode('ascii') if is_str else bytes(buf)
+    n = len(raw) // width
+    a = np.frombuffer(raw, dtype='V%d' % width, count=n)
+    out = a[np.asarray(idxs, dtype=np.int64)].tobytes()      # IndexError for an index outside the data, as the slow path's analogue
+    return out.decode('ascii') if is_str else out
+
+
 # ------------------------------------------------------------------ the model's answer
 def model_norm(ch, idxs, raw_ts, scaler=None):
     """Normalised model values of channel `ch` at positions idxs (array of ints).  For converted
     timestamps returns ('ts-us', [(sec, frac), ...]) which is compared with tolerance."""
-    idxs = [int(i) for i in idxs]
+    idxs = as_indices(idxs)
     if ch.type is None:
         return ('arr', 'V', 0, '')
     if ch.type == 'daqmx':
         t, vals = ch.scalers[scaler]
         size = fmt.size_of(t)
         dt = np.dtype(fmt.TYPES[t][2])
-        b = b''.join(bytes(vals[i * size:(i + 1) * size]) for i in idxs)
+        b = gather(vals, idxs, size)
         return ('arr', dt.kind + str(dt.itemsize), len(idxs), b.hex())
     if ch.type == 'str':
         return ('strs', [ch.values[i] for i in idxs])
     size = fmt.size_of(ch.type)
-    b = b''.join(bytes(ch.values[i * size:(i + 1) * size]) for i in idxs)
+    b = gather(ch.values, idxs, size)
     if ch.type == 'ts':
         if raw_ts:
             return ('rawts', len(idxs), b.hex())
